@@ -1,0 +1,33 @@
+//go:build verif
+
+package store
+
+import (
+	lru "github.com/hashicorp/golang-lru/v2"
+
+	"github.com/canopy-network/canopy/lib"
+)
+
+// Verification hooks (build tag `verif` only; add-only, nothing here is compiled into normal builds).
+
+// VerifBlockCache is an opaque handle on one process-wide block cache instance.
+type VerifBlockCache struct {
+	c *lru.Cache[uint64, *lib.BlockResult]
+}
+
+// VerifNewBlockCache creates a fresh (empty) block cache: what a freshly started process would hold.
+func VerifNewBlockCache() *VerifBlockCache {
+	c, _ := lru.New[uint64, *lib.BlockResult](64)
+	return &VerifBlockCache{c: c}
+}
+
+// VerifSwapBlockCache installs h as the process-wide block cache and returns the previous one, so that a
+// test binary can simulate several independent node processes (each with its own cache) in one process.
+func VerifSwapBlockCache(h *VerifBlockCache) *VerifBlockCache {
+	old := &VerifBlockCache{c: blockCache}
+	blockCache = h.c
+	return old
+}
+
+// VerifPurgeBlockCache empties the process-wide block cache (simulates a process restart).
+func VerifPurgeBlockCache() { blockCache.Purge() }
